@@ -1,6 +1,11 @@
 package main
 
 import (
+	"bufio"
+	"bytes"
+	"io"
+
+	gowarc "github.com/nlnwa/gowarc/v2"
 	"fmt"
 	"strconv"
 	"strings"
@@ -148,7 +153,188 @@ func kXpolBuild(args []string) (string, string) {
 	return line, oracle
 }
 
+// onceFaultReader delivers data[:at], then fails ONCE with a non-EOF error, then goes on with the rest: a transient fault of
+// the underlying reader (a timeout, an interrupted read).
+type onceFaultReader struct {
+	data  []byte
+	pos   int
+	at    int
+	fired bool
+}
+
+func (f *onceFaultReader) Read(p []byte) (int, error) {
+	if !f.fired && f.pos >= f.at {
+		f.fired = true
+		return 0, fmt.Errorf("verif: transient read fault")
+	}
+	if f.pos >= len(f.data) {
+		return 0, io.EOF
+	}
+	end := len(f.data)
+	if !f.fired && f.at < end {
+		end = f.at
+	}
+	n := copy(p, f.data[f.pos:end])
+	f.pos += n
+	return n, nil
+}
+
+// xpolf <baseopts> <at> <data>: the same input and the same transient reader fault under all 81 policy combinations.
+// Judged on the implementation alone (the model's stream ends in EOF or in a STICKY fault; it has no transient one): an
+// input rejected with an error under a more lenient setting of one axis is rejected under every stricter one.
+func kXpolFault(args []string) (string, string) {
+	base := parseRopts(args[0])
+	at, _ := strconv.Atoi(args[1])
+	data := unhx(args[2])
+	bits := make([]byte, 81)
+	for i := 0; i < 81; i++ {
+		o := base
+		o.syn, o.spec, o.unk, o.blk = i/27, (i/9)%3, (i/3)%3, i%3
+		br := bufio.NewReaderSize(&onceFaultReader{data: data, at: at}, 16)
+		rec, _, _, err := gowarc.NewUnmarshaler(o.options()...).Unmarshal(br)
+		if rec != nil {
+			_ = rec.Close()
+		}
+		if err != nil {
+			bits[i] = '1'
+		} else {
+			bits[i] = '0'
+		}
+	}
+	errAt := func(s, p, u, b int) bool { return bits[((s*3+p)*3+u)*3+b] == '1' }
+	oracle := "ok"
+	for i := 0; i < 81 && oracle == "ok"; i++ {
+		s, p, u, b := i/27, (i/9)%3, (i/3)%3, i%3
+		if !errAt(s, p, u, b) {
+			continue
+		}
+		switch {
+		case s < 2 && !errAt(s+1, p, u, b):
+			oracle = fmt.Sprintf("VIOL c08-monotone-transient-fault axis=syn at=%d%d%d%d fault-at=%d", s, p, u, b, at)
+		case p < 2 && !errAt(s, p+1, u, b):
+			oracle = fmt.Sprintf("VIOL c08-monotone-transient-fault axis=spec at=%d%d%d%d fault-at=%d", s, p, u, b, at)
+		case u < 2 && !errAt(s, p, u+1, b):
+			oracle = fmt.Sprintf("VIOL c08-monotone-transient-fault axis=unk at=%d%d%d%d fault-at=%d", s, p, u, b, at)
+		case b < 2 && !errAt(s, p, u, b+1):
+			oracle = fmt.Sprintf("VIOL c08-monotone-transient-fault axis=blk at=%d%d%d%d fault-at=%d", s, p, u, b, at)
+		}
+	}
+	return "impl-only", oracle
+}
+
+func genXpolFault(r *rng, n int, emit func(string, ...string)) {
+	for i := 0; i < n; i++ {
+		sub := r.fork()
+		g := genRecord(sub)
+		g.declare(sub, false)
+		data := g.serialize()
+		if sub.chance(1, 2) {
+			// header lines that end in a bare LF: the syntax axis has something to say right where the fault strikes
+			data = bytes.Replace(data, []byte("\r\n"), []byte("\n"), 1+sub.intn(3))
+		}
+		if sub.chance(1, 3) {
+			data = mutateRecord(sub, data)
+		}
+		if len(data) > 3000 {
+			continue
+		}
+		// fault positions: right behind a line feed, or anywhere
+		var ends []int
+		for p, c := range data {
+			if c == '\n' {
+				ends = append(ends, p+1)
+			}
+		}
+		at := sub.intn(len(data) + 1)
+		if len(ends) > 0 && sub.chance(2, 3) {
+			at = pick(sub, ends)
+		}
+		stat("xpolf", "case")
+		emit("xpolf", genRopts(sub).String(), strconv.Itoa(at), hx(data))
+	}
+}
+
+// unmpair <opts> <first> <second>: ONE Unmarshaler parses `first` and then `second`; a fresh Unmarshaler parses `second`
+// alone. What the caller reads from the second record - header fields, block, findings, error - must be the same: nothing
+// the parser did to an earlier record (a repair, a finding) may show up in a later one. Judged on the implementation alone
+// (the model of Unmarshal has no state between calls by construction).
+func kUnmPair(args []string) (string, string) {
+	o := parseRopts(args[0])
+	first, second := unhx(args[1]), unhx(args[2])
+	show := func(u gowarc.Unmarshaler, data []byte) string {
+		br := bufio.NewReaderSize(bytes.NewReader(data), 64)
+		rec, off, val, err := u.Unmarshal(br)
+		line := fmt.Sprintf("off=%d fnd=%s", off, showList(classifyAll(val)))
+		if err != nil {
+			line += " err=" + gowarc.VerifClassify(err)
+		}
+		if rec != nil {
+			if err == nil {
+				line += " " + showRec(rec)
+			}
+			_ = rec.Close()
+		}
+		return line
+	}
+	shared := gowarc.NewUnmarshaler(o.options()...)
+	_ = show(shared, first)
+	after := show(shared, second)
+	alone := show(gowarc.NewUnmarshaler(o.options()...), second)
+	if after != alone {
+		return "impl-only", "VIOL c07-state-leak the same record parses differently after another record: " + sanitize(after) + " VS " + sanitize(alone)
+	}
+	return "impl-only", "ok"
+}
+
+func genUnmPair(r *rng, n int, emit func(string, ...string)) {
+	for i := 0; i < n; i++ {
+		sub := r.fork()
+		g := genRecord(sub)
+		g.declare(sub, false)
+		second := g.serialize()
+		// the first record shares header lines with the second and needs a repair or earns findings
+		g1 := *g
+		g1.hdr = append([][2]string{}, g.hdr...)
+		var first []byte
+		switch sub.intn(4) {
+		case 0:
+			// same headers (same Content-Length line), an HTTP-looking block of the same length without header terminator
+			if len(g.block) >= 24 {
+				blk := "GET / HTTP/1.1\r\nX-Pad: "
+				blk += strings.Repeat("p", len(g.block)-len(blk)-2) + "\r\n"
+				g1.block = []byte(blk)
+				for k := range g1.hdr {
+					if g1.hdr[k][0] == "Content-Type" {
+						g1.hdr[k][1] = "application/http;msgtype=request"
+					}
+					if g1.hdr[k][0] == "WARC-Type" {
+						g1.hdr[k][1] = "request"
+					}
+				}
+			}
+			first = g1.serialize()
+		case 1:
+			// same headers, wrong digests
+			g1.blockDigest = "sha1:AAAAAAAAAAAAAAAAAAAAAAAAAAAAAAAA"
+			g1.payDigest = "sha1:BBBBBBBBBBBBBBBBBBBBBBBBBBBBBBBB"
+			first = g1.serialize()
+		case 2:
+			// same headers, one byte more in the block than declared
+			first = bytes.Replace(g.serialize(), []byte("\r\n\r\n"), []byte("\r\n\r\nX"), 1)
+		default:
+			first = mutateRecord(sub, g.serialize())
+		}
+		o := genRopts(sub)
+		if sub.chance(1, 2) {
+			o.fixcl, o.fixdig, o.fixsyn, o.adddig = true, true, true, true
+		}
+		stat("unmpair", "case")
+		emit("unmpair", o.String(), hx(first), hx(second))
+	}
+}
+
 func genC07(r *rng, n int, tier string, emit func(string, ...string)) {
+	genUnmPair(r, n/5, emit)
 	genC08(r, n/2, tier, emit)
 	// plus plain parses of clean records with small spill thresholds: the declared block must be readable completely
 	genUnmarshalCases(r, n, emit, func(r *rng) ropts {
@@ -159,6 +345,7 @@ func genC07(r *rng, n int, tier string, emit func(string, ...string)) {
 }
 
 func genC08(r *rng, n int, tier string, emit func(string, ...string)) {
+	genXpolFault(r, n/6, emit)
 	genUnmarshalCases(r, n, func(kind string, args ...string) {
 		emit("xpol", args[0], args[1], args[2], args[3])
 	}, func(r *rng) ropts {
@@ -196,6 +383,8 @@ func genC08(r *rng, n int, tier string, emit func(string, ...string)) {
 func init() {
 	kinds["xpol"] = kXpol
 	kinds["xpolb"] = kXpolBuild
+	kinds["xpolf"] = kXpolFault
+	kinds["unmpair"] = kUnmPair
 	gens["C08"] = genC08
 	gens["C07"] = genC07
 }
